@@ -51,24 +51,34 @@ def run(R, ctx):
         tb = [(bb, t) for bb, t in b.calls() if callee_name(t) == 'std::cell::RefCell::<T>::try_borrow_mut']
         if not tb:
             continue
-        # format sites of the Err(BorrowMutError) arm: in this body, or in a private helper the arm calls
+        # format sites of the Err(BorrowMutError) arm: in this body, or in a private helper the arm calls (the helper may be
+        # shared with the other arm: its parameter stands for the argument of THIS call site)
         edges = try_edges(b, tb[0][1]['dest']['l'])
-        sites = []
-        for bb, t in b.calls():
-            if not any(C.dominates(b, e[1], bb) for e in edges):
-                continue
-            n_ = callee_name(t)
-            if re.search(c01.FMT, n_):
-                sites.append((b, t))
-            elif n_ in f.bodies:
-                for q in ctx.cg.reachable([n_], spawn=False, stop=c01.STOP_AT):
-                    if q in f.bodies:
-                        sites += [(f.bodies[q], t2) for _, t2 in f.bodies[q].calls() if re.search(c01.FMT, callee_name(t2))]
-        if not sites and not any(re.search(c01.FMT, callee_name(t)) for _, t in b.calls()):
+
+        def fmt_roots(body, via, depth=0):
+            """root sets of the buffer argument of every format call in `body`; `via` = (caller body, call term) or None"""
+            out = []
+            pv = ctx.ip.prov(body.path)
+            for bb2, t2 in body.calls():
+                n2 = callee_name(t2)
+                if via is None and not any(C.dominates(body, e[1], bb2) for e in edges):
+                    continue
+                if re.search(c01.FMT, n2):
+                    rs = set()
+                    for r_ in pv.op_roots(t2['args'][0]):
+                        if r_[0] == 'param' and via is not None and r_[1] - 1 < len(via[1]['args']):
+                            rs |= ctx.ip.prov(via[0].path).op_roots(via[1]['args'][r_[1] - 1])
+                        else:
+                            rs.add(r_)
+                    out.append(rs)
+                elif n2 in f.bodies and f.bodies[n2].kind != 'Closure' and depth < 2 and via is None:
+                    out += fmt_roots(f.bodies[n2], (body, t2), depth + 1)
+            return out
+        sets = fmt_roots(b, None)
+        if not sets and not any(re.search(c01.FMT, callee_name(t)) for _, t in b.calls()):
             continue
-        okrec = bool(sites)
-        for (sb_, t) in sites:
-            roots_ = {r_ for (_, r_) in ctx.ip.expand(sb_.path, ctx.ip.prov(sb_.path).op_roots(t['args'][0]))}
+        okrec = bool(sets)
+        for roots_ in sets:
             okrec = okrec and any(r_[0] == 'call' and re.search(r'Vec::<T>::(with_capacity|new)$', r_[1]) for r_ in roots_) and \
                 not any(r_[0] == 'call' and 'try_borrow_mut' in r_[1] for r_ in roots_) and not any(r_[0] == 'tls' for r_ in roots_)
         R.check('R03.2', f"{b.path}|recursion-arm-fresh-buffer", okrec, "Err(BorrowMutError) arm formats into a fresh Vec",
